@@ -1112,6 +1112,7 @@ fn main_random(args: &[String]) {
 /// drive the cursor through wrap-around and exhaustion.
 fn main_exhaust(args: &[String]) {
     let seed = util::arg_u64(args, "seed", 1);
+    let ops = util::arg_u64(args, "ops", 40);
     let out = util::arg(args, "out").expect("out=");
     let mut rng = StdRng::seed_from_u64(seed);
     let mut all = Vec::new();
@@ -1122,7 +1123,40 @@ fn main_exhaust(args: &[String]) {
         assert!(ok, "fill");
         let mut live: Vec<usize> = Vec::new();
         let addrs = ["wild", "lo", "a1", "a2"];
-        for _ in 0..40 {
+        // fixed prologue: take every free port; free the one handed out last (it sits right behind
+        // the cursor) and ask again - exactly one port is free, no failed attempt in between;
+        // free the one handed out first and ask again (the scan has to wrap around); ask once
+        // more (exhausted); free a middle one and ask after the failed attempt
+        for _ in 0..free {
+            let (res, _, sid) = w.bind(1, proto, 4, addrs[rng.random_range(0..addrs.len())], 0);
+            if res == "Ok" {
+                live.push(sid);
+            }
+        }
+        for pick in ["last", "first", "none", "middle"] {
+            let idx = match pick {
+                "last" => live.len().checked_sub(1),
+                "first" => if live.is_empty() { None } else { Some(0) },
+                "middle" => if live.is_empty() { None } else { Some(live.len() / 2) },
+                _ => None,
+            };
+            if let Some(i) = idx {
+                let s = live.remove(i);
+                w.close(&[s]);
+            }
+            let (res, _, sid) = w.bind(1, proto, 4, addrs[rng.random_range(0..addrs.len())], 0);
+            if res == "Ok" {
+                live.push(sid);
+            }
+            let da = ["a1", "a2"][rng.random_range(0..2)];
+            let dp = EPH_LO + rng.random_range(0..free);
+            if proto == "udp" {
+                w.probe_udp(2, 4, da, dp);
+            } else {
+                w.probe_syn(2, 4, "b1", SYN_PORT, da, dp);
+            }
+        }
+        for _ in 0..ops {
             let r = rng.random_range(0..10);
             if r < 6 {
                 let addr = addrs[rng.random_range(0..addrs.len())];
@@ -1132,7 +1166,9 @@ fn main_exhaust(args: &[String]) {
                 }
             } else if r < 9 {
                 if !live.is_empty() {
-                    let s = live.swap_remove(rng.random_range(0..live.len()));
+                    // mostly the socket bound last: its port is the one right behind the cursor
+                    let i = if rng.random_bool(0.5) { live.len() - 1 } else { rng.random_range(0..live.len()) };
+                    let s = live.remove(i);
                     w.close(&[s]);
                 }
             } else {
